@@ -5,6 +5,9 @@ import "fmt"
 // ---- feature group 2: if / while / for
 
 func (g *Gen) cond(depth int) *Node {
+	if g.chance(4) {
+		return CapCmd("nop") // no value at all: "considered true, consistent with how `and` works"
+	}
 	if g.chance(10) {
 		return g.Expr(KAny, depth-1) // any value has a truth value
 	}
